@@ -312,39 +312,145 @@ Proof.
       exists e. rewrite He. repeat split; auto.
 Qed.
 
-Lemma run_monitor tasks : forall sched s m,
-  Inv tasks s m -> mon_run tasks m sched (run true tasks s sched) = true.
+(* ---------- the lock layer: bookkeeping events leave the state alone ---------- *)
+Lemma inv_m1 tasks s m i : Inv tasks s m -> Inv tasks s (m1_of m i).
 Proof.
-  induction sched as [|i r IH]; intros s m I; [reflexivity|].
-  cbn [run]. destruct (step true tasks s i) as [s' o] eqn:E. cbn [mon_run].
-  destruct (step_inv _ _ _ _ _ _ I E) as (m' & -> & I'). apply IH, I'.
+  intros I. constructor; cbn [m1_of acked needs].
+  - apply (i_store _ _ _ I).
+  - apply (i_acked _ _ _ I).
+  - apply (i_cache _ _ _ I).
+  - intros j k nm seen g Ht Hpc.
+    destruct (i_got _ _ _ I _ _ _ _ _ Ht Hpc) as (A & B & C & (N & HN & HNge) & E).
+    repeat split; auto. exists N. split; auto.
+    unfold updn. destruct (Nat.eqb_spec j i) as [->|Ne]; auto.
+    unfold need_of. now rewrite HN.
+  - intros j k nm seen Ht Hpc.
+    destruct (i_checked _ _ _ I _ _ _ _ Ht Hpc) as (A & N & HN). split; auto.
+    unfold updn. destruct (Nat.eqb_spec j i) as [->|Ne]; eauto.
+  - intros j N. unfold updn. destruct (Nat.eqb_spec j i) as [->|Ne].
+    + intros [= <-]. eapply need_incl; eauto.
+    + apply (i_needs _ _ _ I).
+  - apply (i_pending _ _ _ I).
 Qed.
 
-(* For every task list and every schedule the run of the (fixed) model passes the monitor. *)
-Lemma fixed_monitor : forall i, monitor i (model_fx true i) = true.
-Proof. intros [tasks sched]. unfold monitor, model_fx. apply run_monitor, inv_init. Qed.
+(* an event that is not a completion (parked inside the lock scope, blocked) *)
+Lemma book_inv tasks s m i o :
+  Inv tasks s m -> (o = OBlocked \/ exists pt, o = OPark pt) ->
+  exists m', mon_step tasks m i o = Some m' /\ Inv tasks s m'.
+Proof.
+  intros I Ho. unfold mon_step. fold (need_of m i). fold (m1_of m i).
+  destruct (nth_error tasks i) as [t|].
+  - exists (m1_of m i). split; [|apply inv_m1; exact I].
+    destruct Ho as [->|(pt & ->)]; destruct t; reflexivity.
+  - exists m. split; [|exact I]. destruct Ho as [->|(pt & ->)]; reflexivity.
+Qed.
 
-(* ---------- what the monitor says, in words ----------
-   A run is the list of (task index, observation) pairs.  If it contains the
-   acknowledgement of publish p as an update, and later the answer of a lookup
-   for p's key whose first step comes after that acknowledgement, then the
-   answer is that of a published packet for the key that is not older than p. *)
-Fixpoint mon_runc (tasks : list task) (m : mst) (l : list (nat * obs)) : bool :=
+(* the monitor as a fold that returns its final state *)
+Fixpoint mon_events (tasks : list task) (m : mst) (l : list event) : option mst :=
   match l with
-  | [] => true
+  | [] => Some m
   | (i, o) :: r => match mon_step tasks m i o with
-                   | Some m' => mon_runc tasks m' r
-                   | None => false
+                   | Some m' => mon_events tasks m' r
+                   | None => None
                    end
   end.
 
-Lemma mon_run_combine tasks : forall sched os m,
-  mon_run tasks m sched os = mon_runc tasks m (combine sched os).
+Lemma mon_events_app tasks : forall l1 m l2,
+  mon_events tasks m (l1 ++ l2) =
+  match mon_events tasks m l1 with Some m' => mon_events tasks m' l2 | None => None end.
 Proof.
-  induction sched as [|i r IH]; intros [|o os] m; cbn; try reflexivity.
+  induction l1 as [|[i o] r IH]; intros m l2; cbn; [reflexivity|].
   destruct (mon_step tasks m i o); auto.
 Qed.
 
+Lemma mon_run_events tasks : forall l m,
+  mon_run tasks m l = match mon_events tasks m l with Some _ => true | None => false end.
+Proof.
+  induction l as [|[i o] r IH]; intros m; cbn; [reflexivity|].
+  destruct (mon_step tasks m i o); auto.
+Qed.
+
+Lemma wake_inv tasks : forall ws s m s' evs,
+  Inv tasks s m -> wake true tasks s ws = (s', evs) ->
+  exists m', mon_events tasks m evs = Some m' /\ Inv tasks s' m'.
+Proof.
+  induction ws as [|w r IH]; intros s m s' evs I; cbn [wake].
+  - intros [= <- <-]. exists m. split; [reflexivity|exact I].
+  - destruct (step true tasks s w) as [s1 o] eqn:E1.
+    destruct (wake true tasks s1 r) as [s2 evs2] eqn:E2. intros [= <- <-].
+    destruct (step_inv _ _ _ _ _ _ I E1) as (m1 & H1 & I1).
+    destruct (IH _ _ _ _ I1 E2) as (m2 & H2 & I2).
+    exists m2. split; [|exact I2]. cbn [mon_events]. now rewrite H1.
+Qed.
+
+(* one schedule entry of the locked system keeps the invariant and passes the monitor *)
+Lemma xstep_inv tasks x m e x' evs :
+  Inv tasks (base x) m -> xstep true tasks x e = (x', evs) ->
+  exists m', mon_events tasks m evs = Some m' /\ Inv tasks (base x') m'.
+Proof.
+  intros I. destruct e as [i hold]. unfold xstep.
+  destruct (negb (live tasks (base x) i)).
+  { intros [= <- <-]. exists m. split; [reflexivity|exact I]. }
+  destruct (existsb (Nat.eqb i) (waiters x)).
+  { intros [= <- <-]. destruct (book_inv tasks _ _ i OBlocked I (or_introl eq_refl)) as (m' & H & I').
+    exists m'. split; [|exact I']. cbn [mon_events]. now rewrite H. }
+  assert (Hplain : forall h ws, (let '(s1, o) := step true tasks (base x) i in (mkX s1 h ws, [(i, o)])) = (x', evs) ->
+            exists m', mon_events tasks m evs = Some m' /\ Inv tasks (base x') m').
+  { intros h ws. destruct (step true tasks (base x) i) as [s1 o] eqn:E1. intros [= <- <-].
+    destruct (step_inv _ _ _ _ _ _ I E1) as (m1 & H1 & I1).
+    exists m1. split; [|exact I1]. cbn [mon_events]. now rewrite H1. }
+  destruct (holder x) as [j|].
+  - destruct (Nat.eqb i j).
+    + destruct (step true tasks (base x) i) as [s1 o] eqn:E1.
+      destruct (wake true tasks s1 (waiters x)) as [s2 evs2] eqn:E2. intros [= <- <-].
+      destruct (step_inv _ _ _ _ _ _ I E1) as (m1 & H1 & I1).
+      destruct (wake_inv _ _ _ _ _ _ I1 E2) as (m2 & H2 & I2).
+      exists m2. split; [|exact I2]. cbn [mon_events]. now rewrite H1.
+    + destruct (needs_lock tasks (base x) i).
+      * intros [= <- <-]. destruct (book_inv tasks _ _ i OBlocked I (or_introl eq_refl)) as (m' & H & I').
+        exists m'. split; [|exact I']. cbn [mon_events]. now rewrite H.
+      * apply Hplain.
+  - destruct (if hold then hold_point tasks (base x) i else None) as [pt|].
+    + intros [= <- <-].
+      destruct (book_inv tasks _ _ i (OPark pt) I (or_intror (ex_intro _ pt eq_refl))) as (m' & H & I').
+      exists m'. split; [|exact I']. cbn [mon_events]. now rewrite H.
+    + apply Hplain.
+Qed.
+
+Lemma xrun_monitor tasks : forall sched x m,
+  Inv tasks (base x) m -> exists m', mon_events tasks m (xrun true tasks x sched) = Some m'.
+Proof.
+  induction sched as [|e r IH]; intros x m I; cbn [xrun]; [eexists; reflexivity|].
+  destruct (xstep true tasks x e) as [x' evs] eqn:E.
+  destruct (xstep_inv _ _ _ _ _ _ I E) as (m1 & H1 & I1).
+  destruct (IH _ _ I1) as (m2 & H2). exists m2. now rewrite mon_events_app, H1.
+Qed.
+
+(* For every task list and every schedule (with every choice of parking inside the lock scopes)
+   the run of the (fixed) model passes the monitor. *)
+Lemma fixed_monitor : forall i, monitor i (model_fx true i) = true.
+Proof.
+  intros [tasks sched]. unfold monitor, model_fx. rewrite mon_run_events.
+  destruct (xrun_monitor tasks (full_sched tasks sched) xinit minit (inv_init tasks)) as (m' & ->).
+  reflexivity.
+Qed.
+
+(* the step of a task that needs the cache lock is disabled while another task is parked inside
+   its lock scope: nothing happens to store and cache, the task is queued *)
+Lemma locked_step_disabled fx tasks x i hold j :
+  holder x = Some j -> i <> j -> live tasks (base x) i = true ->
+  existsb (Nat.eqb i) (waiters x) = false -> needs_lock tasks (base x) i = true ->
+  xstep fx tasks x (i, hold) = (mkX (base x) (Some j) (waiters x ++ [i]), [(i, OBlocked)]).
+Proof.
+  intros Hh Ne Hl Hw Hn. unfold xstep. rewrite Hl, Hw, Hh, Hn. cbn [negb].
+  destruct (Nat.eqb_spec i j); [contradiction|reflexivity].
+Qed.
+
+(* ---------- what the monitor says, in words ----------
+   A run is the list of (task index, observation) events.  If it contains the
+   acknowledgement of publish p as an update, and later the answer of a lookup
+   for p's key whose first event comes after that acknowledgement, then the
+   answer is that of a published packet for the key that is not older than p. *)
 (* p is waited for by lookup i: either i has not started and p is acknowledged,
    or i started when p was already acknowledged *)
 Definition covers (m : mst) (i : nat) (p : pkt) : Prop :=
@@ -391,9 +497,9 @@ Proof.
     cbn [acked m1_of]; try apply incl_refl. apply incl_tl, incl_refl.
 Qed.
 
-Lemma mon_runc_app tasks : forall l1 m l2,
-  mon_runc tasks m (l1 ++ l2) = true ->
-  exists m1, mon_runc tasks m1 l2 = true /\
+Lemma mon_run_app tasks : forall l1 m l2,
+  mon_run tasks m (l1 ++ l2) = true ->
+  exists m1, mon_run tasks m1 l2 = true /\
     (forall i p, covers m i p -> covers m1 i p) /\
     (forall i, (forall o, In (i, o) l1 -> o = OSkip) -> needs m1 i = needs m i) /\
     (incl (acked m) (acked m1)).
@@ -413,25 +519,25 @@ Qed.
 Lemma monitor_sound tasks sched os :
   monitor (tasks, sched) os = true ->
   forall l1 l2 l3 j p i k nm a,
-    combine (full_sched tasks sched) os = l1 ++ (j, ODoneP true) :: l2 ++ (i, ODoneR a) :: l3 ->
+    os = l1 ++ (j, ODoneP true) :: l2 ++ (i, ODoneR a) :: l3 ->
     nth_error tasks j = Some (TPublish p) ->
     nth_error tasks i = Some (TResolve k nm) ->
     pkey p = k ->
     (forall o, In (i, o) l1 -> o = OSkip) ->
     exists q, In q (pubs tasks) /\ pkey q = k /\ ge q p = true /\ ans q nm = a.
 Proof.
-  unfold monitor. rewrite mon_run_combine. intros H l1 l2 l3 j p i k nm a E Hj Hi Hk Hfirst.
+  unfold monitor. intros H l1 l2 l3 j p i k nm a E Hj Hi Hk Hfirst.
   rewrite E in H. clear E.
-  destruct (mon_runc_app _ _ _ _ H) as (m1 & H1 & _ & N1 & _).
+  destruct (mon_run_app _ _ _ _ H) as (m1 & H1 & _ & N1 & _).
   specialize (N1 i Hfirst). cbn [minit needs] in N1.
-  cbn [mon_runc] in H1. unfold mon_step in H1. rewrite Hj in H1.
+  cbn [mon_run] in H1. unfold mon_step in H1. rewrite Hj in H1.
   fold (need_of m1 j) in H1. fold (m1_of m1 j) in H1.
   set (m2 := mkMst (p :: acked m1) (needs (m1_of m1 j))) in H1.
   assert (C2 : covers m2 i p).
   { unfold covers, need_of, m2, m1_of, updn. cbn [needs acked].
     destruct (Nat.eqb_spec i j) as [->|Ne]; [congruence|]. rewrite N1. now left. }
-  destruct (mon_runc_app _ _ _ _ H1) as (m3 & H3 & C3 & _ & _).
-  specialize (C3 _ _ C2). cbn [mon_runc] in H3. unfold mon_step in H3. rewrite Hi in H3.
+  destruct (mon_run_app _ _ _ _ H1) as (m3 & H3 & C3 & _ & _).
+  specialize (C3 _ _ C2). cbn [mon_run] in H3. unfold mon_step in H3. rewrite Hi in H3.
   fold (need_of m3 i) in H3.
   destruct (fresh_R (pubs tasks) k nm a (need_of m3 i)) eqn:F; [|discriminate].
   unfold fresh_R in F. rewrite forallb_forall in F. specialize (F p C3).
@@ -443,31 +549,67 @@ Proof.
   - destruct (ans q nm), a; cbn in Fa; try discriminate; auto. apply N.eqb_eq in Fa. congruence.
 Qed.
 
-(* the statement of the property for the code as it is (every task list, every schedule) *)
+(* the statement of the property for the code as it is (every task list, every schedule,
+   every choice of parking lookups inside their lock scopes) *)
 Lemma no_stale_after_ack tasks sched :
   forall l1 l2 l3 j p i k nm a,
-    combine (full_sched tasks sched) (model (tasks, sched)) =
-      l1 ++ (j, ODoneP true) :: l2 ++ (i, ODoneR a) :: l3 ->
+    model (tasks, sched) = l1 ++ (j, ODoneP true) :: l2 ++ (i, ODoneR a) :: l3 ->
     nth_error tasks j = Some (TPublish p) ->
     nth_error tasks i = Some (TResolve k nm) ->
     pkey p = k ->
     (forall o, In (i, o) l1 -> o = OSkip) ->
     exists q, In q (pubs tasks) /\ pkey q = k /\ ge q p = true /\ ans q nm = a.
-Proof. apply monitor_sound. apply (fixed_monitor (tasks, sched)). Qed.
+Proof. apply (monitor_sound tasks sched). apply (fixed_monitor (tasks, sched)). Qed.
+
+Definition ev (i : nat) (o : obs) : event := (i, o).
 
 (* ---- the race in the code before the fix ---- *)
 Definition wp1 := mkPkt 0 1 0 1 [1].
 Definition wp2 := mkPkt 0 2 0 2 [2].
 Definition witness : input :=
   ([TPublish wp1; TResolve 0 0; TPublish wp2; TResolve 0 0],
-   [0; 0; 1; 1; 2; 2; 1]%nat).
+   map (fun i => (i, false)) [0; 0; 1; 1; 2; 2; 1]%nat).
 
 Lemma unfixed_refuted : exists i, monitor i (model_fx false i) = false.
 Proof. exists witness. vm_compute. reflexivity. Qed.
 
 (* the same schedule on the fixed code: the late fill is suppressed, the later lookup sees p2 *)
 Example witness_fixed :
-  model_fx true witness =
-  [OPark 3; ODoneP true; OPark 1; OPark 2; OPark 3; ODoneP true; ODoneR (Some 1);
-   OSkip; OSkip; OSkip; OSkip; OSkip; OSkip; OSkip; OSkip; OSkip; OPark 1; OPark 2; ODoneR (Some 2)].
+  firstn 19 (model_fx true witness) =
+  [ev 0 (OPark 3); ev 0 (ODoneP true); ev 1 (OPark 1); ev 1 (OPark 2); ev 2 (OPark 3); ev 2 (ODoneP true);
+   ev 1 (ODoneR (Some 1));
+   ev 0 (OSkip); ev 0 (OSkip); ev 0 (OSkip); ev 1 (OSkip); ev 1 (OSkip); ev 1 (OSkip); ev 2 (OSkip); ev 2 (OSkip); ev 2 (OSkip);
+   ev 3 (OPark 1); ev 3 (OPark 2); ev 3 (ODoneR (Some 2))].
+Proof. vm_compute. reflexivity. Qed.
+
+(* ---- a lookup parked inside its cache lock scope holds up the invalidation of a publish ---- *)
+Definition lock_witness : input :=
+  ([TPublish wp1; TResolve 0 0; TResolve 0 0; TPublish wp2; TResolve 0 0],
+   [(0, false); (0, false); (1, false); (1, false); (1, false);   (* p1 published, looked up, cached *)
+    (2, true);                                                      (* lookup 2 parks at in_cache_check *)
+    (3, false); (3, false);                                         (* p2: upsert, then the invalidation must wait *)
+    (2, false);                                                     (* lookup 2 leaves the scope: cache hit p1 (it started
+                                                                       before the acknowledgement); the publish completes *)
+    (4, false); (4, false); (4, false)]%nat).                                               (* a lookup after the acknowledgement sees p2 *)
+
+Example lock_witness_run :
+  firstn 13 (model lock_witness) =
+  [ev 0 (OPark 3); ev 0 (ODoneP true); ev 1 (OPark 1); ev 1 (OPark 2); ev 1 (ODoneR (Some 1));
+   ev 2 (OPark 4); ev 3 (OPark 3); ev 3 (OBlocked); ev 2 (ODoneR (Some 1)); ev 3 (ODoneP true);
+   ev 4 (OPark 1); ev 4 (OPark 2); ev 4 (ODoneR (Some 2))].
+Proof. vm_compute. reflexivity. Qed.
+
+(* what an implementation that skips the invalidation when the lock is busy (try_lock) shows on that
+   schedule: the publish is acknowledged although its step is disabled (disagreement), and the later
+   lookup is answered from the stale zone (monitor failure) *)
+Definition lock_witness_trylock_obs : output :=
+  [ev 0 (OPark 3); ev 0 (ODoneP true); ev 1 (OPark 1); ev 1 (OPark 2); ev 1 (ODoneR (Some 1));
+   ev 2 (OPark 4); ev 3 (OPark 3); ev 3 (ODoneP true); ev 2 (ODoneR (Some 1)); ev 4 (ODoneR (Some 1))].
+
+Example lock_witness_trylock_rejected :
+  agree lock_witness lock_witness_trylock_obs = false /\
+  monitor lock_witness lock_witness_trylock_obs = false.
+Proof. vm_compute. split; reflexivity. Qed.
+
+Example lock_witness_tag : tag lock_witness = 6.
 Proof. vm_compute. reflexivity. Qed.
